@@ -16,7 +16,7 @@ LEVEL = "exploration"
 SHARDS = {"quick": 8, "thorough": 16}
 RULE = ("a settable state (power, mode 1..6, setpoint 13.0..43.5 step 0.5, fan 0..127, swing, eco, turbo, sleep, Fahrenheit, "
         "freeze protection, follow-me, purifier, target humidity 0..127, aux mode, beep) is written through AirConditioner "
-        "setters + apply() to a model device whose 0x40 decoder follows the vendor Lua layout (and through SetStateCommand "
+        "setters + apply() (or, for a share of the cases, as setting=value arguments of `msmart-ng control`) to a model device whose 0x40 decoder follows the vendor Lua layout (and through SetStateCommand "
         "directly for all 16 raw swing nibbles), on a fresh client or after get_capabilities() against two capability profiles (one without custom fan speeds), with or without property-protocol settings pending in the same apply(), while the object is otherwise idle or while an earlier refresh()/apply() of the same object is still awaiting its answer, through the canonical attributes or the deprecated alias attributes (eco_mode, turbo_mode, sleep_mode, freeze_protection_mode); the decoded body must equal the request field by field, vendor-fixed constants must "
         "hold (0x40, mobile-client bit, timers off, swing high bits 0x30, undefined bits clear), and no two different states may "
         "share a body. Per-field exhaustive sweeps (62 setpoints x 6 modes, 128 fan bytes, humidity 0..127, flags sharing a "
@@ -55,6 +55,20 @@ def _apply_and_get_body(s: dict, via: str, caps_profile=None, case_propset=0, ca
         frame = cmd.tobytes()
         m = ModelAC()
         m.handle(frame)
+        return (m.control_bodies[-1] if m.control_bodies else None), m.state, m.rejected
+    if via == "cli":
+        # the documented command line front end: every field given as setting=value to `msmart-ng control`
+        from . import c20
+        swing_names = {0: "off", 0xC: "vertical", 0x3: "horizontal", 0xF: "both"}
+        settings = [f"power_state={s['power']}", f"operational_mode={s['mode']}", f"target_temperature={s['target']}", f"fan_speed={s['fan']}",
+                    f"swing_mode={swing_names.get(s['swing'], s['swing'])}", f"eco={s['eco']}", f"turbo={s['turbo']}", f"sleep={s['sleep']}",
+                    f"fahrenheit={s['fahrenheit']}", f"freeze_protection={s['freeze']}", f"follow_me={s['follow_me']}", f"purifier={s['purifier']}",
+                    f"target_humidity={s['humidity']}", f"aux_mode={s['aux']}", f"beep={s['beep']}"]
+        initial = dict(c20.DEFAULT_INITIAL)
+        status, exc, _net, holder = c20.run_cli({"kind": "valid", "settings": settings, "initial": initial, "capabilities": bool(caps_profile), "version": 2})
+        m = holder["m"]
+        if status != 0:
+            return None, m.state, [(None, f"msmart-ng control {' '.join(settings)} exited {status} ({exc!r})")]
         return (m.control_bodies[-1] if m.control_bodies else None), m.state, m.rejected
     net = vloop.Net()
     res = {}
@@ -239,12 +253,14 @@ def run(ctx) -> None:
                 case = dict(case, aliases=True)
             elif "via" not in case and i % 20 == 10:
                 case = dict(case, inflight=["refresh", "apply"][(i // 20) % 2])
+            elif "via" not in case and i % 20 == 5 and case["state"]["fan"] >= 1 and case["state"]["swing"] in gens.SWING_MEMBERS:
+                case = dict(case, via="cli")
             ctx.check(case, lambda c: _run_one(ctx, c))
     ctx.sweep("per-field exhaustive sweeps x 2 backgrounds + flag combinations + pairwise array", len(cases), True)
 
     full = gens.settable_states().map(lambda s: dict(s, fan=s["fan"]))
     wide = st.fixed_dictionaries({"state": st.one_of(full, full.flatmap(lambda s: st.integers(0, 127).map(lambda f: dict(s, fan=f))),
                                                      full.flatmap(lambda s: st.integers(0, 127).map(lambda h: dict(s, humidity=h)))),
-                                  "via": st.sampled_from(["device", "device", "command"]), "cls": st.just("random"),
+                                  "via": st.sampled_from(["device", "device", "device", "command", "command", "cli"]), "cls": st.just("random"),
                                   "caps": st.sampled_from([None, "caps0", "caps1", "caps0+refresh"]), "propset": st.sampled_from([0, 0, 1, 2]), "aliases": st.sampled_from([False, False, True]), "inflight": st.sampled_from([None, None, None, "refresh", "apply"])})
     ctx.hyp("random", wide, lambda c: _run_one(ctx, c), ctx.n(2500, 320000))
